@@ -219,43 +219,58 @@ def judge_parallel(cases, faildir, timeout):
     if done == len(procs): lines.append('DONE records=%d fails=%d' % (recs - (len(parts) - 1) * nblobs, fails))
     return rc, '\n'.join(lines) + '\n', errs
 
+NSHARDS = 8        # thorough tier: one check's harness work is split over this many processes (VERIF_SHARD=i/K, see harness/gen.h)
+
+def _harness_once(exe, mode, tier, seed, cases, crash, extra_args, timeout, shard=None):
+    env = dict(ASAN_ENV)
+    if shard is not None: env['VERIF_SHARD'] = '%d/%d' % shard
+    return run([exe, mode, tier, str(seed), cases, crash] + list(extra_args), env=env, timeout=timeout)
+
 def run_harness_and_judge(exe, mode, tier, seed, wd, tag, timeout=3000, extra_args=()):
-    """runs `exe mode tier seed casefile crashfile`, then the Lean judge on the case file"""
+    """runs `exe mode tier seed casefile crashfile` (thorough tier: NSHARDS of them side by side), then the Lean judge on every case file"""
     rr = RunResult(); t0 = time.time()
-    cases = os.path.join(wd, tag + '.cases'); crash = os.path.join(wd, tag + '.crash')
-    rc, out, err, _ = run([exe, mode, tier, str(seed), cases, crash] + list(extra_args), env=ASAN_ENV, timeout=timeout)
-    for l in out.splitlines():
-        if l.startswith('STAT '):
-            _, k, v = l.split(' ', 2); rr.stats[k] = rr.stats.get(k, 0) + int(v)
-        elif l.startswith('CFAIL '):
-            d = dict(x.split('=', 1) for x in l[6:].split(' ') if '=' in x)
-            rr.fails.append(dict(kind=d.get('reason', '?'), file=d.get('file', ''), detail=l[6:], source='harness', case=d.get('case')))
-        elif l.startswith('SAMPLE '): rr.samples.append(l[7:])
-    if rc in (0, 1) and 'STAT cfails' not in out: rc = 98          # the harness did not reach its end
-    if rc not in (0, 1):
-        kind = 'sanitizer_abort' if ('AddressSanitizer' in err or 'runtime error' in err) else ('timeout' if rc == 124 else 'harness_crash')
-        m = re.search(r'(ERROR: AddressSanitizer: [^\n]*|runtime error: [^\n]*)', err)
-        summ = m.group(1) if m else err[-300:]
-        fr = re.findall(r'#\d+ 0x[0-9a-f]+ in (\S+) (\S+)', err)
-        where = ' <- '.join('%s %s' % (a, os.path.basename(b)) for a, b in fr[:4])
-        rr.fails.append(dict(kind=kind, file=crash if os.path.exists(crash) else '', detail='%s | %s' % (summ, where), source='crash', rc=rc))
-    if os.path.exists(cases) and os.path.getsize(cases) > 0:
-        rc2, out2, err2 = judge_parallel(cases, os.path.join(wd, 'fails'), timeout)
-        for l in out2.splitlines():
-            if l.startswith('FAIL '):
-                m = re.match(r'FAIL case=(\d+) op=(\d+) kind=(\S+) file=(\S+) detail=(.*)', l)
-                if m: rr.fails.append(dict(kind=m.group(3), file=m.group(4), detail=m.group(5), source='judge', case=m.group(1), op=m.group(2)))
-            elif l.startswith('TAG '):
-                _, k, v = l.split(' ', 2); rr.tags[k] = rr.tags.get(k, 0) + int(v)
-            elif l.startswith('DISTINCT '): rr.distinct += int(l.split()[1])
-            elif l.startswith('DONE '):
-                m = re.search(r'records=(\d+)', l); rr.records += int(m.group(1))
+    shards = [(i, NSHARDS) for i in range(NSHARDS)] if tier == 'thorough' and not extra_args else [None]
+    files = [(os.path.join(wd, '%s%s.cases' % (tag, '' if sh is None else '_s%d' % sh[0])), os.path.join(wd, '%s%s.crash' % (tag, '' if sh is None else '_s%d' % sh[0]))) for sh in shards]
+    if len(shards) == 1:
+        results = [_harness_once(exe, mode, tier, seed, files[0][0], files[0][1], extra_args, timeout)]
+    else:
+        import concurrent.futures
+        with concurrent.futures.ThreadPoolExecutor(len(shards)) as ex:
+            results = list(ex.map(lambda a: _harness_once(exe, mode, tier, seed, a[1][0], a[1][1], extra_args, timeout, a[0]), zip(shards, files)))
+    for si, ((rc, out, err, _), (cases, crash)) in enumerate(zip(results, files)):
+        for l in out.splitlines():
+            if l.startswith('STAT '):
+                _, k, v = l.split(' ', 2); rr.stats[k] = rr.stats.get(k, 0) + int(v)
+            elif l.startswith('CFAIL '):
+                d = dict(x.split('=', 1) for x in l[6:].split(' ') if '=' in x)
+                rr.fails.append(dict(kind=d.get('reason', '?'), file=d.get('file', ''), detail=l[6:], source='harness', case=d.get('case')))
             elif l.startswith('SAMPLE '): rr.samples.append(l[7:])
-        if rc2 not in (0, 1) or 'DONE ' not in out2: rr.errors.append('judge failed rc=%d: %s' % (rc2, (out2 + err2)[-300:]))
-        try: os.unlink(cases)
-        except OSError: pass
-    elif rc in (0, 1) and not extra_args:
-        rr.errors.append('harness wrote no cases (rc=%d): %s' % (rc, (out + err)[-300:]))
+        if rc in (0, 1) and 'STAT cfails' not in out: rc = 98          # the harness did not reach its end
+        if rc not in (0, 1):
+            kind = 'sanitizer_abort' if ('AddressSanitizer' in err or 'runtime error' in err) else ('timeout' if rc == 124 else 'harness_crash')
+            m = re.search(r'(ERROR: AddressSanitizer: [^\n]*|runtime error: [^\n]*)', err)
+            summ = m.group(1) if m else err[-300:]
+            fr = re.findall(r'#\d+ 0x[0-9a-f]+ in (\S+) (\S+)', err)
+            where = ' <- '.join('%s %s' % (a, os.path.basename(b)) for a, b in fr[:4])
+            rr.fails.append(dict(kind=kind, file=crash if os.path.exists(crash) else '', detail='%s | %s' % (summ, where), source='crash', rc=rc))
+        if os.path.exists(cases) and os.path.getsize(cases) > 0:
+            rc2, out2, err2 = judge_parallel(cases, os.path.join(wd, 'fails' if len(shards) == 1 else 'fails_s%d' % si), timeout)
+            for l in out2.splitlines():
+                if l.startswith('FAIL '):
+                    m = re.match(r'FAIL case=(\d+) op=(\d+) kind=(\S+) file=(\S+) detail=(.*)', l)
+                    if m: rr.fails.append(dict(kind=m.group(3), file=m.group(4), detail=m.group(5), source='judge', case=m.group(1), op=m.group(2)))
+                elif l.startswith('TAG '):
+                    _, k, v = l.split(' ', 2); rr.tags[k] = rr.tags.get(k, 0) + int(v)
+                elif l.startswith('DISTINCT '): rr.distinct += int(l.split()[1])
+                elif l.startswith('DONE '):
+                    m = re.search(r'records=(\d+)', l); rr.records += int(m.group(1))
+                elif l.startswith('SAMPLE '): rr.samples.append(l[7:])
+            if rc2 not in (0, 1) or 'DONE ' not in out2: rr.errors.append('judge failed rc=%d: %s' % (rc2, (out2 + err2)[-300:]))
+            try: os.unlink(cases)
+            except OSError: pass
+        elif rc in (0, 1) and not extra_args:
+            rr.errors.append('harness wrote no cases (rc=%d): %s' % (rc, (out + err)[-300:]))
+    if len(shards) > 1: rr.stats['harness_shards'] = len(shards)
     rr.wall = time.time() - t0
     return rr
 
